@@ -2252,8 +2252,10 @@ func (err *SchemaError) Error() string {
 			panic(err)
 		}
 		buf.WriteString("\nValue:\n  ")
-		if err := encoder.Encode(err.Value); err != nil {
-			panic(err)
+		if encErr := encoder.Encode(err.Value); encErr != nil {
+			// values that JSON cannot represent (YAML maps with non-string keys,
+			// infinities) are printed in Go syntax instead of panicking
+			fmt.Fprintf(buf, "%#v\n", err.Value)
 		}
 	}
 
